@@ -680,14 +680,14 @@ func New() *FunctionGenerator {
 			}
 			return false, false
 		}).
-		AddOpImpl("|", true, Or(f)).
-		AddOpImpl("&", true, And(f))
+		AddOpImpl("|", false, Or(f)).
+		AddOpImpl("&", false, And(f))
 
 	f.FunctionGenerator = fg
 	equal := Equal(f)
 	less := Less(f)
 
-	fg.AddOpImpl("=", true, equal)
+	fg.AddOpImpl("=", false, equal)
 	fg.AddOp("!=", false, func(st funcGen.Stack[Value], a Value, b Value) (Value, error) {
 		eq, err := equal.Calc(st, a, b)
 		if err != nil {
